@@ -102,6 +102,8 @@ class DG:
             names, binds, scope = [], [], list(env)
             for i in range(nb):
                 v = r.choice(env) if (env and r.random() < 0.3) else self.var()      # shadowing of outer variables
+                if names and r.random() < 0.08 and names[-1].upper() != names[-1] and names[-1].upper() not in names:
+                    v = names[-1].upper()          # a variable that differs from its neighbour only in the case of its letters
                 if form == "let" and v in names:
                     v = self.var()
                 init_env = env if form == "let" else scope
@@ -227,7 +229,14 @@ class DG:
             if r.random() < 0.45:
                 return self.random_expr(depth - 1, e)
             return None
-        return self.build(form, env, fill, depth)
+        x = self.build(form, env, fill, depth)
+        if r.random() < 0.06:
+            # the same form twice, the second time with every variable and number in a ticking leaf replaced by the STRING that prints alike
+            # ("w1" for w1, "5" for 5): the two uses differ only in what their operands are, not in how they print
+            t = twin(x)
+            if t is not None:
+                return [S("list"), x, t]
+        return x
 
     def pair(self, outer, pos, inner):
         """outer form with an instance of `inner` in sub-form position `pos`"""
@@ -258,6 +267,21 @@ class DG:
         forms.append(self.random_expr(depth, [g]))
         forms.append([S("list"), self.random_expr(depth - 1, [g]), S(g)])
         return forms
+
+
+def twin(x):
+    """x with the operand of every direct (tick k OPERAND) leaf turned into the string of the same printed text; None if there is no such leaf"""
+    hit = [False]
+
+    def go(e):
+        if isinstance(e, list):
+            if len(e) == 3 and e[0] == S("tick") and isinstance(e[1], int) and (isinstance(e[2], Sym) or (isinstance(e[2], int) and not isinstance(e[2], bool))):
+                hit[0] = True
+                return [e[0], e[1], e[2].name if isinstance(e[2], Sym) else str(e[2])]
+            return [go(y) for y in e]
+        return e
+    t = go(x)
+    return t if hit[0] else None
 
 
 def closed(e):
